@@ -231,6 +231,10 @@ def run_case(case):
                 add("single_precision_calls_made", len(calls))
                 continue
             for h, leaf, got in calls:
+                prefix = f"{'solve' if kind == 'solve' else 'sim'}{i}__"
+                missing = [k for k in g if k.startswith(prefix) and k not in got]
+                if missing:
+                    res["violations"].append({"key": "result_structure_differs", "what": f"call {h} ({kind}, arg set {i}, leaf {leaf}): result lacks {len(missing)} entries that a fresh function object in a fresh process returns (e.g. {missing[0]})"})
                 for k, a in got.items():
                     add("golden_entries")
                     if k not in g:
